@@ -281,6 +281,14 @@ class Statement(object):
         if self.operand.value.is_address():
             self.code_pkg.additional = statements[self.operand.value.int].code_pkg.address
 
+        if self.operand.value.is_address() or self.operand.value.is_address_expression():
+            # The operand field is as wide as the instruction reserves, however small the address is
+            resolved = self.code_pkg.additional
+            operand_bytes = self.code_pkg.size - self.code_pkg.op_code.byte_len() - self.code_pkg.post_byte.byte_len()
+            self.code_pkg.additional = NumericValue(
+                -resolved.int if resolved.is_negative() else resolved.int, size_hint=operand_bytes * 2
+            )
+
         if self.code_pkg.additional_needs_resolution:
             if self.operand.is_indexed() and self.operand.left and self.operand.left.is_address_expression():
                 relative_address = self.operand.left.calculate_address_offset(statements).int
